@@ -631,18 +631,41 @@ pub fn observe_quantile(e: &average::Quantile) -> Obs {
     }
 }
 
-/// Public marker state of a Quantile, read through serde (the only public window on it).
-#[derive(Clone, Debug, serde::Deserialize)]
+/// Public marker state of a Quantile, read through serde (the only public window on it):
+/// five marker heights and five marker positions.
+#[derive(Clone, Debug)]
 pub struct QMarkers {
     pub q: [f64; 5],
     pub n: [i64; 5],
-    pub m: [f64; 5],
-    pub dm: [f64; 5],
 }
 
+fn five_numbers(v: &serde_json::Value) -> Option<[f64; 5]> {
+    let a = v.as_array()?;
+    if a.len() != 5 {
+        return None;
+    }
+    let mut out = [0.0; 5];
+    for (i, x) in a.iter().enumerate() {
+        out[i] = x.as_f64()?;
+    }
+    Some(out)
+}
+
+/// Err: the serialised form does not expose five heights and five positions under the names
+/// this reader knows (`q`/`heights`, `n`/`positions`); the marker clauses are then skipped and
+/// counted, not reported — a representation change is not a property violation.
 pub fn quantile_markers(e: &average::Quantile) -> Result<QMarkers, String> {
     let v = serde_json::to_value(e).map_err(|e| e.to_string())?;
-    serde_json::from_value(v).map_err(|e| e.to_string())
+    let q = ["q", "heights", "marker_heights"].iter().find_map(|k| v.get(*k).and_then(five_numbers)).ok_or("no array of five marker heights")?;
+    let n = ["n", "positions", "marker_positions"].iter().find_map(|k| v.get(*k).and_then(five_numbers)).ok_or("no array of five marker positions")?;
+    let mut ni = [0i64; 5];
+    for i in 0..5 {
+        if n[i].fract() != 0.0 {
+            return Err("non-integer marker position".into());
+        }
+        ni[i] = n[i] as i64;
+    }
+    Ok(QMarkers { q, n: ni })
 }
 
 // ---------------------------------------------------------------------------------------
